@@ -165,21 +165,27 @@ def gen_masks(rng, nproc):
     return rows
 
 
-def gen_ops(rng, n, neval, value, max_cores=4, p_map=0.2):
-    """history: changes of cores, evaluations and visualize calls with schedules"""
+def gen_ops(rng, n, neval, value, max_cores=4, p_map=0.2, c0=1, p_mod=0.12):
+    """history: changes of cores, evaluations, visualize calls and modify_before_fit with schedules;
+    c0 = n_cores of general.yaml (what a freshly built combined analysis starts with)"""
     ops = []
-    cores, pool_procs = 1, 0
-    if rng.random() < 0.85:
+    cores, pool_procs = c0, (min(n, c0) if c0 > 1 else 0)
+    if c0 == 1 and rng.random() < 0.85:
         cores = rng.choice([2, 2, 3, max_cores, 1])
         ops.append(["cores", cores])
         if cores > 1:
             pool_procs = min(n, cores)
     for _ in range(neval):
-        if rng.random() < 0.15:
+        r = rng.random()
+        if r < 0.15:
             cores = rng.choice([1, 1, 2, 3, max_cores])
             ops.append(["cores", cores])
             if cores > 1:
                 pool_procs = min(n, cores)
+        elif r < 0.15 + p_mod:
+            # the members set themselves up in place; the combined analysis is rebuilt with n_cores = c0
+            ops.append(["modify", rng.choice([-5, -3, -1, 1, 2, 4, 9])])
+            cores, pool_procs = c0, (min(n, c0) if c0 > 1 else 0)
         if rng.random() < p_map:
             ops.append(["map", value(), gen_masks(rng, pool_procs) if pool_procs else []])
         else:
@@ -286,18 +292,10 @@ def gen_cases(ctx):
                 a["fail"], a["fail2"] = [], []
         expr = {"sum": [{"j": j} for j in ids]} if rng.random() < 0.4 else rand_tree(rng, [{"j": j} for j in ids])
         max_cores = rng.choice([4, n, n + 2])
-        ops = gen_ops(rng, n, rng.randint(3, 10), lambda: rng.choice(pool_vals), max_cores)
+        conf_cores = rng.choice([2, 3]) if k % 4 == 3 else None      # n_cores from general.yaml (read by the constructor)
+        ops = gen_ops(rng, n, rng.randint(3, 10), lambda: rng.choice(pool_vals), max_cores, c0=conf_cores or 1)
         case = {"kind": "hist", "ads": ads, "expr": expr, "ops": ops, "scale": rng.choice([1, 1, 1024])}
-        if k % 6 == 5:
-            # n_cores from general.yaml (read by the constructor) instead of the setter
-            conf_cores = rng.choice([2, 3])
-            while ops and ops[0][0] == "cores":
-                ops.pop(0)
-            nproc = min(n, conf_cores)
-            for op in ops:
-                if op[0] == "cores":
-                    break
-                op[2] = gen_masks(rng, nproc)
+        if conf_cores:
             case["conf_cores"] = conf_cores
         cases.append(case)
     # ---- hist, unsteered: the raw queue.empty() polling decides the schedule; one exception class only
@@ -306,7 +304,7 @@ def gen_cases(ctx):
         ads = gen_ads(rng, n, 1, pool_vals, vis=True)
         for a in ads:
             a["fail2"], a["vfail2"] = [], []
-        ops = [op[:2] + [[]] if op[0] != "cores" else op for op in
+        ops = [op[:2] + [[]] if op[0] in ("eval", "map") else op for op in
                gen_ops(rng, n, rng.randint(4, 10), lambda: rng.choice(pool_vals))]
         cases.append({"kind": "hist", "ads": ads, "expr": {"sum": [{"j": j} for j in range(n)]}, "ops": ops,
                       "scale": 1, "unsteered": True})
@@ -331,9 +329,13 @@ def gen_cases(ctx):
             free = gen_free_items(rng, shape, pids, own)
             expr = {"free": expr}
         nvals = len(pids) * n + 2
-        ops = gen_ops(rng, n, rng.randint(2, 5), lambda: [rng.choice(vals_pool) for _ in range(nvals)], 3)
-        cases.append({"kind": "idx", "ads": ads, "expr": expr, "shape": shape, "default": pids, "own": own,
-                      "free": free, "ops": ops, "scale": 1})
+        conf_cores = 2 if k % 3 == 2 else None
+        ops = gen_ops(rng, n, rng.randint(2, 6), lambda: [rng.choice(vals_pool) for _ in range(nvals)], 3, c0=conf_cores or 1)
+        case = {"kind": "idx", "ads": ads, "expr": expr, "shape": shape, "default": pids, "own": own,
+                "free": free, "ops": ops, "scale": 1}
+        if conf_cores:
+            case["conf_cores"] = conf_cores
+        cases.append(case)
     # ---- real fits: plain / with_model / free (/ free over own models), any bracketing, 1-2 cores
     for k in range(16 if not thorough else 60):
         variant = ["plain", "own", "free", "plain", "own", "free", "both", "plain"][k % 8]
@@ -353,7 +355,8 @@ def gen_cases(ctx):
             free = [{"prior": p} for p in sorted(set(rng.sample(pids, rng.randint(1, min(2, len(pids))))))]
             expr = {"free": expr}
         ads = gen_ads(rng, n, len(pids), [])
-        case = {"kind": "fit", "ads": ads, "expr": expr, "shape": shape, "default": pids, "own": own, "free": free}
+        case = {"kind": "fit", "ads": ads, "expr": expr, "shape": shape, "default": pids, "own": own, "free": free,
+                "mod_delta": rng.choice([-4, 3, 7])}
         if k % 2 == 1:
             case["conf_cores"] = 2
         cases.append(case)
@@ -456,10 +459,12 @@ def val_of(a, scale=1):
     return int(f) if f == int(f) else None
 
 
-def expected_call(fn, c, lv, subs, pooled):
+def expected_call(fn, c, lv, subs, pooled, offs=None):
     """expected outcome of one evaluation / visualize: serial -> the first raising analysis' class;
-    pool -> the class of any raising analysis"""
+    pool -> the class of any raising analysis; offs = state the members added to their likelihood"""
     rs = [fn(c["ads"][j], s) for (j, _), s in zip(lv, subs)]
+    if offs is not None:
+        rs = [x if isinstance(x, tuple) else x + o for x, o in zip(rs, offs)]
     excs = [r[1] for r in rs if isinstance(r, tuple)]
     if not excs:
         return sum(rs), rs
@@ -479,20 +484,30 @@ def oracle_history(c, r, lv, subs_of, out):
     scale = c.get("scale", 1)
     cores, pool, tainted, e = 1, False, False, 0
     outs = r["outs"]
+    c0 = c.get("conf_cores") or 1
+    offs = [0] * len(lv)                       # what each member added to its own state in modify_before_fit
     for op in eff_ops(c):
         if op[0] == "cores":
             cores = op[1]
             if cores > 1:
                 pool, tainted = True, False
             continue
+        if op[0] == "modify":
+            # members without a with_model wrapper set themselves up in place (ModelAnalysis inherits the default
+            # hook and does not ask the wrapped analysis); the combined analysis is rebuilt: n_cores from general.yaml
+            offs = [o if h else o + op[1] for o, (_, h) in zip(offs, lv)]
+            cores, pool, tainted = c0, c0 > 1, False
+            continue
         subs = subs_of(op[1])
+
         got = outs[e] if e < len(outs) else {"ans": ["other", "missing"]}
         if op[0] == "eval":
             pooled = cores > 1
-            exp, rs = expected_call(lik, c, lv, subs, pooled)
+            exp, rs = expected_call(lik, c, lv, subs, pooled, offs)
             gotv = val_of(got["ans"], scale)
             if not answer_ok(gotv, exp):
-                out.append(("evaluation %d (n_cores=%d) returned %r, the sum of the analyses is %r" % (e, cores, gotv, exp),
+                out.append(("evaluation %d (n_cores=%d) returned %r, the sum of the members' own likelihoods is %r"
+                            % (e, cores, gotv, exp),
                             {L_STALE} if (pooled and tainted) else set()))
         else:
             pooled = pool
@@ -580,6 +595,11 @@ def oracle(c, r):
         if r["res"] != [[i, j, j] for i, j in enumerate(ids)]:
             out.append(("save_results wrote (folder, analysis, child result handed over) %s, expected position i, "
                         "analysis i, child i" % r["res"], hooks))
+        d = c.get("mod_delta", 0)
+        expo = sorted([j, 0 if h else d] for j, h in set(lv))
+        if "offs" in r and r["offs"] != expo:
+            out.append(("during the fit the likelihoods were evaluated by members in state (analysis, offset) %s; after "
+                        "modify_before_fit every evaluation must see %s" % (r["offs"], expo), set()))
         if exp["kind"] == "plain":
             base, _ = canon([[("orig", p) for p in c["default"]]])
             expc = [[j, base[0]] for j in ids]
@@ -611,6 +631,12 @@ def nontrivial(c):
                 cores = op[1]
                 if cores > 1:
                     pool, raised = True, False
+                continue
+            if op[0] == "modify":
+                if pool:
+                    mapped = True                 # a pool existed when the members changed their state
+                c0 = c.get("conf_cores") or 1
+                cores, pool, raised = c0, c0 > 1, False
                 continue
             pooled = cores > 1 if op[0] == "eval" else pool
             if pooled and any(not all(row) for row in op[2]):
@@ -674,7 +700,7 @@ def cpairs(l):
 def coq_outs(c, r):
     scale = c.get("scale", 1)
     res = []
-    ops = [op for op in eff_ops(c) if op[0] != "cores"]
+    ops = [op for op in eff_ops(c) if op[0] in ("eval", "map")]
     for op, o in zip(ops, r["outs"]):
         if op[0] == "eval":
             res.append("ObsAns (Some %s)" % coq_res(o["ans"], scale))
@@ -697,6 +723,8 @@ def coq_case(c, r):
         for op in eff_ops(c):
             if op[0] == "cores":
                 ops.append("OCores %s" % cnat(op[1]))
+            elif op[0] == "modify":
+                ops.append("OModify %s %s" % (cZ(op[1]), cnat(c.get("conf_cores") or 1)))
             else:
                 ops.append("%s ([%s], []) %s" % ("OEval" if op[0] == "eval" else "OMap", cZ(op[1]), coq_masks(op[2])))
         # residue of evaluations carries the scale; compare numerators
@@ -710,6 +738,8 @@ def coq_case(c, r):
         for op in eff_ops(c):
             if op[0] == "cores":
                 ops.append("ICores %s" % cnat(op[1]))
+            elif op[0] == "modify":
+                ops.append("IModify %s %s" % (cZ(op[1]), cnat(c.get("conf_cores") or 1)))
             else:
                 ops.append("%s %s %s" % ("IEval" if op[0] == "eval" else "IMap", clist([cZ(x) for x in op[1]]), coq_masks(op[2])))
         return "CIdx %s %s %s %s %s %s %s %s %s %s %s" % (
@@ -834,7 +864,7 @@ def run(ctx):
                 ctx.hist("op", op[0])
                 if op[0] == "cores":
                     ctx.hist("cores", op[1])
-                else:
+                elif op[0] != "modify":
                     ctx.hist("scripted_passes", len(op[2]))
         if c["kind"] == "fit":
             ctx.hist("fit_variant", expected_struct(c)["kind"] + ("+own" if c.get("free") is not None and c["own"] else ""))
